@@ -42,6 +42,7 @@ type K struct {
 type Ent struct {
 	K
 	F string `json:"f,omitempty"` // "" | "r" status lookup fails | "w" status write fails (BTC)
+	G uint64 `json:"g,omitempty"` // evm / sub: the proposal's gasLimit metadata (0 = none); how the survivors are cut into batches is C14
 }
 
 type Op struct {
@@ -64,6 +65,8 @@ type Case struct {
 	Ops  []Op      `json:"ops"`
 	// concurrent Bitcoin history over one shared prop store (conc.go); Ops is unused then
 	Conc *ConcCase `json:"conc,omitempty"`
+	// Bitcoin: two operations of one Executor meeting inside a call (script.go); Ops is unused then
+	Script *Script `json:"script,omitempty"`
 }
 
 type OpObs struct {
@@ -80,6 +83,11 @@ type Obs struct {
 	// with a key that is not a proposal key (informative)
 	Threads [][]OpObs `json:"threads,omitempty"`
 	Stray   int       `json:"stray,omitempty"`
+	// scripted case: the operations in the order in which they completed (Ops: their observations); was the main
+	// operation parked, did the intruder complete while it was
+	Linear  []Op `json:"linear,omitempty"`
+	Parked  bool `json:"parked,omitempty"`
+	Between bool `json:"between,omitempty"`
 }
 
 // ---- store with per-position faults around the real PropStore -----------------------------------------
@@ -142,7 +150,7 @@ type world struct {
 	evm   *evmexec.Executor
 	sub   *subexec.Executor
 	btc   *btcexec.Executor
-	live  []K // transfers of the live signing sessions, as selected by the implementation
+	live  *liveSet // transfers of the live signing sessions, as selected by the implementation
 	// one goroutine of a concurrent case (conc.go)
 	hook   bool             // deliveries go to proposalsForExecution through the hook (the executor is shared)
 	shared bool             // the executor is shared with other goroutines: never replaced
@@ -150,13 +158,59 @@ type world struct {
 	snapFn func(K) string   // reads a status from the backend, bypassing the PropStore
 }
 
+// liveSet: the transfers of the live signing sessions, a multiset (after a release one transfer can be in two live
+// sessions); shared by the goroutines of a scripted case
+type liveSet struct {
+	mu sync.Mutex
+	l  []K
+}
+
+func (w *world) liveSet() *liveSet {
+	if w.live == nil {
+		w.live = &liveSet{}
+	}
+	return w.live
+}
+
+func (ls *liveSet) add(ks []K) {
+	ls.mu.Lock()
+	ls.l = append(ls.l, ks...)
+	ls.mu.Unlock()
+}
+
+// take: if every transfer of b is live, the ending session takes one occurrence of each with it
+func (ls *liveSet) take(b []K) bool {
+	ls.mu.Lock()
+	defer ls.mu.Unlock()
+	for _, k := range b {
+		if !contains(ls.l, k) {
+			return false
+		}
+	}
+	for _, k := range b {
+		for i, x := range ls.l {
+			if x == k {
+				ls.l = append(ls.l[:i:i], ls.l[i+1:]...)
+				break
+			}
+		}
+	}
+	return true
+}
+
+func (ls *liveSet) reset() {
+	ls.mu.Lock()
+	ls.l = nil
+	ls.mu.Unlock()
+}
+
 func (w *world) newExecutor() {
 	fetcher := &fk.Fetcher{Fail: true}
 	switch w.c.Dest {
 	case "evm":
-		w.evm = evmexec.NewExecutor(nil, nil, nil, fk.EvmBridge{Chain: w.chain}, fetcher, &sync.RWMutex{}, w.c.Cap, 100)
+		w.evm = evmexec.NewExecutor(nil, nil, nil, newRealEvmBridge(w.chain), fetcher, &sync.RWMutex{}, w.c.Cap, 100)
 	case "sub":
-		w.sub = subexec.NewExecutor(nil, nil, nil, fk.SubPallet{Chain: w.chain}, fetcher, nil, &sync.RWMutex{})
+		w.sub = subexec.NewExecutor(nil, nil, nil, newRealSubPallet(w.chain), fetcher, nil, &sync.RWMutex{})
 	case "btc":
 		res := map[[32]byte]btcconfig.Resource{}
 		for _, b := range []byte{0, 1} {
@@ -174,8 +228,12 @@ func (w *world) proposals(d []Ent) []*proposal.Proposal {
 				Amount: 1000, Recipient: btcRecipient, DepositNonce: e.N, ResourceId: w.c.rid(e.K),
 			}, "mid", transfer.TransferProposalType)
 		} else {
+			md := map[string]interface{}{}
+			if e.G != 0 {
+				md["gasLimit"] = e.G
+			}
 			ps[i] = proposal.NewProposal(e.S, destDomain, transfer.TransferProposalData{
-				DepositNonce: e.N, ResourceId: [32]byte{1}, Metadata: map[string]interface{}{},
+				DepositNonce: e.N, ResourceId: [32]byte{1}, Metadata: md,
 				Data: []byte{byte(i >> 8), byte(i)},
 			}, "mid", transfer.TransferProposalType)
 		}
@@ -314,7 +372,7 @@ func (w *world) deliver(d []Ent) OpObs {
 	}
 	o.Err, o.Msg = classify(err, rec)
 	for _, s := range o.Sets {
-		w.live = append(w.live, s...)
+		w.liveSet().add(s)
 	}
 	if w.c.Dest == "btc" && (o.Err != 0) && !w.shared {
 		// proposalsForExecution leaves propMutex locked on its error returns (defect tracked under C17);
@@ -342,11 +400,10 @@ func (w *world) finish(b []K, ok bool) {
 			}
 		}
 	} else {
-		// only a live session can end
-		for _, k := range b {
-			if !contains(w.live, k) {
-				return
-			}
+		// only a live session can end; the live transfers are a multiset (after a release one transfer can be in
+		// two live sessions): the ending session takes one occurrence of each of its transfers with it
+		if !w.liveSet().take(b) {
+			return
 		}
 		props := make([]*btcexec.BtcTransferProposal, len(b))
 		for i, k := range b {
@@ -358,17 +415,19 @@ func (w *world) finish(b []K, ok bool) {
 			st = store.ExecutedProp
 		}
 		w.btc.VerifStoreProposalsStatus(props, st)
+		return
 	}
-	// the live transfers are a multiset (after a release one transfer can be in two live sessions):
-	// the ending session takes one occurrence of each of its transfers with it
-	for _, k := range b {
-		for i, x := range w.live {
-			if x == k {
-				w.live = append(w.live[:i:i], w.live[i+1:]...)
-				break
-			}
+	// EVM / Substrate: the ended session's transfers leave the live set
+	ls := w.liveSet()
+	ls.mu.Lock()
+	var rest []K
+	for _, x := range ls.l {
+		if !contains(b, x) {
+			rest = append(rest, x)
 		}
 	}
+	ls.l = rest
+	ls.mu.Unlock()
 }
 
 // release: a retry request for a block that holds the deposits b reaches relayer/retry.FilterDeposits
@@ -396,7 +455,7 @@ func (w *world) release(b []K) {
 
 // restart: the in-memory sessions are lost, the store is not
 func (w *world) restart() {
-	w.live = nil
+	w.liveSet().reset()
 	if !w.shared {
 		w.newExecutor()
 	}
@@ -408,11 +467,8 @@ func (w *world) snapshot(uni []K) []string {
 		if w.snapFn != nil {
 			out[i] = w.snapFn(k)
 		} else if w.c.Dest == "btc" {
-			st, err := w.fs.inner.PropStatus(k.S, destDomain, k.N)
-			if err != nil {
-				panic(err)
-			}
-			out[i] = string(st)
+			// the durable record, read straight from the backend under the documented key
+			out[i] = recorded(w.kv.M, k)
 		} else if w.chain.Executed[fk.Key{Source: k.S, Nonce: k.N}] {
 			out[i] = "executed"
 		} else {
@@ -420,6 +476,18 @@ func (w *world) snapshot(uni []K) []string {
 		}
 	}
 	return out
+}
+
+// recorded: the status recorded for k in the backend m ("source:%d:destination:%d:depositNonce:%d" -> status)
+func recorded(m map[string]string, k K) string {
+	v, ok := m[fmt.Sprintf(store.KEY, k.S, destDomain, k.N)]
+	switch {
+	case !ok:
+		return "missing"
+	case v == "missing" || v == "pending" || v == "failed" || v == "executed":
+		return v
+	}
+	return "pending" // not a status the code ever writes: behaves like a pending record (not executable, not executed)
 }
 
 func universe(c Case) []K {
@@ -434,7 +502,11 @@ func universe(c Case) []K {
 	for _, e := range c.Init {
 		add(e.K)
 	}
-	for _, o := range c.Ops {
+	ops := c.Ops
+	if c.Script != nil {
+		ops = scriptOps(c.Script)
+	}
+	for _, o := range ops {
 		for _, e := range o.D {
 			add(e.K)
 		}
@@ -455,13 +527,14 @@ func run(c Case) Obs {
 	if c.Conc != nil {
 		return runConc(c)
 	}
+	if c.Script != nil {
+		return runScript(c)
+	}
 	w := &world{c: c, chain: fk.NewChain(), kv: fk.NewKV(), up: &fk.Uploader{}}
 	w.fs = &faultyStore{inner: store.NewPropStore(w.kv)}
 	for _, e := range c.Init {
 		if c.Dest == "btc" {
-			if err := w.fs.inner.StorePropStatus(e.S, destDomain, e.N, store.PropStatus(e.St)); err != nil {
-				panic(err)
-			}
+			w.kv.M[fmt.Sprintf(store.KEY, e.S, destDomain, e.N)] = e.St
 		} else if e.St == "executed" {
 			w.chain.Executed[fk.Key{Source: e.S, Nonce: e.N}] = true
 		}
@@ -598,7 +671,7 @@ func subsetOf(r *vgen.Rng, ks []K) []K {
 	return b
 }
 
-func genHist(r *vgen.Rng, dest string, nops int) Case {
+func genHist(r *vgen.Rng, dest string, nops int, wide bool) Case {
 	c := Case{Dest: dest, Mode: "hist", Cap: vgen.Pick(r, []uint64{150, 250, 1000000})}
 	if dest == "btc" && r.Chance(1, 3) {
 		c.Res = 1 // everything in one transaction
@@ -607,6 +680,9 @@ func genHist(r *vgen.Rng, dest string, nops int) Case {
 	keys := make([]K, nk)
 	for i := range keys {
 		keys[i] = K{S: uint8(1 + i%2), N: uint64(i / 2)}
+	}
+	if wide { // transfers at the width boundaries of the executed-status lookup's encodings (wide.go)
+		keys = wideKeySet(r, nk)
 	}
 	s := &sim{c: &c, btc: dest == "btc", st: map[K]string{}}
 	for _, k := range keys {
@@ -629,6 +705,9 @@ func genHist(r *vgen.Rng, dest string, nops int) Case {
 			d := make([]Ent, n)
 			for j := range d {
 				d[j].K = vgen.Pick(r, keys)
+				if dest != "btc" {
+					d[j].G = gasFor(r)
+				}
 				switch y := r.Intn(100); {
 				case y < 5:
 					d[j].F = "r"
@@ -838,6 +917,9 @@ func gen(r *vgen.Rng, tier string) []Case {
 				x := a
 				for i := range d {
 					d[i].K = K{S: 1, N: uint64(i)}
+					if (a/3)%4 == 1 && (i+a)%2 == 0 {
+						d[i].G = []uint64{50, 150, 1000000}[(a+i)%3]
+					}
 					switch x % 3 {
 					case 1:
 						c.Init = append(c.Init, InitEnt{K: d[i].K, St: "executed"})
@@ -897,7 +979,7 @@ func gen(r *vgen.Rng, tier string) []Case {
 	}
 	for _, dest := range dests {
 		for i := 0; i < nh; i++ {
-			out = append(out, genHist(r, dest, r.Range(2, 30)))
+			out = append(out, genHist(r, dest, r.Range(2, 30), i%2 == 1))
 		}
 	}
 	// 4. Bitcoin: overlapping sessions over multi-transfer deliveries
@@ -907,6 +989,10 @@ func gen(r *vgen.Rng, tier string) []Case {
 	}
 	// 5. Bitcoin: goroutines (executor deliveries, retry requests) on one shared prop store
 	out = append(out, genConcCases(r, tier)...)
+	// 6. EVM / Substrate: the executed-status lookup at the width boundaries of its encodings; 7. Bitcoin: two
+	// operations of one Executor meeting inside a call.  Their own streams: the cases above stay what they were
+	out = append(out, genWide(vgen.NewRng(r.U64()), tier)...)
+	out = append(out, genScripts(vgen.NewRng(r.U64()), tier)...)
 	return out
 }
 
@@ -931,6 +1017,9 @@ func coqStatus(s string) string {
 func coq(c Case, o Obs) string {
 	if c.Conc != nil {
 		return coqConc(c, o)
+	}
+	if c.Script != nil {
+		return coqScript(c, o)
 	}
 	dest := map[string]string{"evm": "EVM", "sub": "SUB", "btc": "BTC"}[c.Dest]
 	init := vgen.ListOf(c.Init, func(e InitEnt) string { return vgen.Pair(coqK(e.K), coqStatus(e.St)) })
@@ -971,11 +1060,22 @@ func main() {
 		Gen:       gen,
 		Run:       run,
 		Coq:       coq,
-		Kind:      func(c Case) string { return c.Dest + "/" + c.Mode },
+		Kind: func(c Case) string {
+			k := c.Dest + "/" + c.Mode
+			if c.Conc == nil && c.Script == nil && wideKeys(c) {
+				k += ":wide"
+			}
+			return k
+		},
 		NonTrivial: func(c Case, o Obs) bool {
 			n := 0
 			for _, op := range c.Ops {
 				n += len(op.D)
+			}
+			if c.Script != nil {
+				for _, op := range scriptOps(c.Script) {
+					n += len(op.D)
+				}
 			}
 			if c.Conc != nil {
 				for _, th := range c.Conc.Threads {
@@ -987,7 +1087,7 @@ func main() {
 			}
 			return n >= 2
 		},
-		Rule:      "per destination kind: one delivery with every assignment of executed / not executed / lookup error to 0..5 proposals (BTC: every assignment of the four recorded statuses to 0..4, every status x store fault for 1..2), a delivery repeating a transfer, random histories of 2..30 ops (deliveries with faults, successful / failed ends of live sessions, restarts, Bitcoin: retry requests releasing pending transfers) over 2..6 transfers, and for Bitcoin overlapping sessions: completely for a delivery of 2..4 transfers in one transaction, every non-empty released subset, the second session over it in the same or the reversed order, both end orders and all outcomes, plus random ones (one or two resources, 3..6 transfers, 1..3 release/deliver rounds, second deliveries mixing released and new transfers at any position, live sessions ending in any order), and concurrent cases (kind btc/conc): 1..3 executor goroutines and 1..4 retry goroutines on ONE shared real PropStore over a backend that yields before it looks at key and value, each goroutine on 2..5 own transfers (any initial status) plus 1..3 shared executed ones, 3..12 ops per goroutine (deliveries mixing own and shared transfers, ends of live sessions, releases, restarts; store faults only where a goroutine has its own Executor), GOMAXPROCS 1/2/4/16; distinct = distinct input JSON; non-trivial = at least two proposals delivered in the case",
+		Rule:      "per destination kind: one delivery with every assignment of executed / not executed / lookup error to 0..5 proposals (BTC: every assignment of the four recorded statuses to 0..4, every status x store fault for 1..2), a delivery repeating a transfer, random histories of 2..30 ops (deliveries with faults, successful / failed ends of live sessions, restarts, Bitcoin: retry requests releasing pending transfers) over 2..6 transfers, and for Bitcoin overlapping sessions: completely for a delivery of 2..4 transfers in one transaction, every non-empty released subset, the second session over it in the same or the reversed order, both end orders and all outcomes, plus random ones (one or two resources, 3..6 transfers, 1..3 release/deliver rounds, second deliveries mixing released and new transfers at any position, live sessions ending in any order), and concurrent cases (kind btc/conc): 1..3 executor goroutines and 1..4 retry goroutines on ONE shared real PropStore over a backend that yields before it looks at key and value, each goroutine on 2..5 own transfers (any initial status) plus 1..3 shared executed ones, 3..12 ops per goroutine (deliveries mixing own and shared transfers, ends of live sessions, releases, restarts; store faults only where a goroutine has its own Executor), GOMAXPROCS 1/2/4/16; EVM / Substrate lookups go through the real BridgeContract / Pallet IsProposalExecuted over fakes that decode the wire form, with (kind ...:wide) one transfer at every nonce boundary 0, 1, 2^31, 2^32, 2^53, 2^63-1, 2^63, 2^64-1 x origin domain 0/1/255 x executed / not executed next to the transfers a mangled lookup would name (nonce cut to 31/32/53 bits, top bit flipped, shifted, parameters swapped, destination for origin domain, neighbours) with the opposite status, 60 random deliveries of 1..5 such transfers per destination, and every second random history (all three destinations) over such transfers; EVM / Substrate proposals now and then carry a gasLimit of their own up to and beyond the transaction cap (a batch of its own, at the front of a delivery too); scripted Bitcoin cases (kind btc/script): two operations of ONE Executor on the same transfers - ends of two overlapping executions with every combination of outcomes, an end and a re-delivery, two deliveries - the first parked at every one of its store calls (before it is served / before it returns) while the second is started, 1..3 transfers in the same or the reversed order, then everything is delivered again; plus 60 random ones over 2..4 transfers of one or two resources; distinct = distinct input JSON; non-trivial = at least two proposals delivered in the case",
 		ShardSize: 300,
 	})
 }
